@@ -165,8 +165,12 @@ def decision(ctx, f, b, cfg):
             return "token_cell"
         if "discr" in atoms and any_atom(atoms, "field:Rule.specific_items"):
             return "override"
+        if "discr" in atoms and any_atom(atoms, "field:ParamsMetric.rule_time_counter") and not any_atom(atoms, "field:ParamsMetric.rule_token_counter") \
+                and any_atom(atoms, "call:add_if_absent") and not any_atom(atoms, "call:Atomic::<u64>::load"):
+            return "time_cell"
         return r
     w = D.Walker(f, b, classify, opaque_name=oname)
+    w.option_calls_as_disc = True       # x.is_none() / match x { None => .. }: the same atom
 
     def stop(bb, env):
         if bb in blocked:
@@ -207,14 +211,14 @@ def decision(ctx, f, b, cfg):
             return None
         if rb == ">":
             return "blocked"
-        if asg["opaque"].get("first_sight"):
+        if asg["opaque"].get("first_sight") or asg["disc"].get("time_cell") == 0:
             return "pass"
         re_ = D.rel_of(asg, "elapsed", "window")
         if re_ is None:
             return None
         cas = asg["opaque"].get("cas.is_ok")
         if re_ == ">":
-            if asg["opaque"].get("token_cell_absent"):
+            if asg["opaque"].get("token_cell_absent") or asg["disc"].get("token_cell") == 0:
                 return "pass"
             rn = D.rel_of(asg, "newq", "const:0")
             if rn is None:
